@@ -351,6 +351,10 @@ def build_net(spec_names, cfgname, rng, explicit=None, desc=None, force_mode=Non
     if explicit:
         raw = [(list(re_), list(pr_), t) for re_, pr_, t in explicit]
     rs = [Reaction(list(re_), list(pr_), alpha=1e-10, reaction_type=RT(t), idxfromfile=i + 1) for i, (re_, pr_, t) in enumerate(raw)]
+    if held and (force_mode or rng.random() < 0.3):
+        # the list of required species may also name a species that takes part in a reaction, or one species twice (a user who lists
+        # all reactants of the cooling functions): still one slot per species
+        held = list(held) + [names[0], held[0]]
     if desc is not None:
         desc.update({"cfg": cfgname, "required": list(held), "binding": dict(chemistrydata.user_binding_energy),
                      "reactions": [[re_, pr_, t] for re_, pr_, t in raw]})
